@@ -620,7 +620,7 @@ pub fn run(opts: &Opts, cfg_b: bool) -> Option<Stats> {
     let rnd = par_for(opts.jobs, cases, 64, Some(deadline), |st: &mut Stats, i: u64, slot: &Slot| {
         let mut rng = Rng::new(mix(seed, i));
         // "huge" graphs: a handful per run, beyond the next powers of two above the wide sizes
-        // (4096, and in the thorough tier 8192 / 16384): internal buffers, batches and caps sized
+        // (4096, and in the thorough tier 8192): internal buffers, batches and caps sized
         // by a round constant instead of by the graph show up here
         let huge = plan_ref.wide_every > 0 && cases >= 64 && i % (cases / huge_per_run).max(1) == 23 % (cases / huge_per_run).max(1);
         let wide = huge || (plan_ref.wide_every > 0 && i % plan_ref.wide_every == 0);
@@ -632,8 +632,7 @@ pub fn run(opts: &Opts, cfg_b: bool) -> Option<Stats> {
                 st.count("huge_graph_runs");
                 match (q_tier, rng.below(4)) {
                     (true, _) | (false, 0) => rng.range(4100, 4700),
-                    (false, 1) | (false, 2) => rng.range(8200, 9000),
-                    (false, _) => rng.range(16400, 17000),
+                    (false, _) => rng.range(8200, 9000),
                 }
             } else {
                 *rng.pick(&plan_ref.wide_sizes)
